@@ -18,7 +18,7 @@ DESIGN_REF = "DESIGN.md section 7, C03"
 RULE = ("all ordered pairs of transform kinds x dims x {before, after} x {in-place, not} with random finite parameters (several draws per pair), plus random programs of "
         "2-8 compose calls; non-trivial = neither operand is the identity and the reference map could be evaluated on >=3 probe points; distinct = (kind a, kind b, dims, "
         "direction, in-place) for pairs and the operation/kind sequence for programs")
-ASSUMPTIONS = ["in-place composition is judged on 'same map, argument unchanged' only; class honesty of an in-place receiver is recorded, not judged",
+ASSUMPTIONS = ["an accepted in-place composition is judged on 'same map, argument unchanged, receiver still an honest member of its class' (the last only when both operands were honest before)",
                "pairs whose dimensionalities do not chain (e.g. WithDims output fed to a 2D warp) are not judged"]
 DECIDING_TAPS = ["compose", "compose_inplace"]
 REPLAY_PATHS = ['menpo/transform/test', 'menpo/image/test']      # suite replay (thorough tier): the repository's own tests under these monitors
@@ -147,7 +147,9 @@ class InplaceMonitor(taps.Monitor):
         except Exception:
             return None
         first, second = (a0, b0) if self.direction == "before" else (b0, a0)
-        return {"ref": reference(first, second), "da": digest(a), "db": digest(b)}
+        import menpo.transform as mt
+        honest_in = isinstance(a, mt.Homogeneous) and isinstance(b, mt.Homogeneous) and not tx.honest(a) and not tx.honest(b)
+        return {"ref": reference(first, second), "da": digest(a), "db": digest(b), "honest_in": honest_in}
 
     def post(self, ctx, st, args, kw, c, exc):
         a, b = args[0], args[1] if len(args) > 1 else kw.get("transform")
@@ -178,6 +180,9 @@ class InplaceMonitor(taps.Monitor):
         import menpo.transform as mt
         if isinstance(a, mt.Homogeneous) and tx.honest(a):
             ctx.see("inplace_receiver_dishonest_observed", "%s.%s_inplace(%s)" % (ka, self.direction, kb))
+            if st["honest_in"]:
+                # the receiver keeps its class: an accepted in-place composition of two honest members must leave it an honest member
+                ctx.fail("result_class_is_not_honest", cls=ka, mech="inplace:" + self.direction + ":" + kb, problems=tx.honest(a))
 
 
 class DecomposeMonitor(taps.Monitor):
